@@ -471,14 +471,17 @@ func (s *state) sysRun(c *sysCase, attempt int) (out sysOutcome) {
 		out.SetupErr = "dialer host: " + err.Error()
 		return
 	}
-	var hwg sync.WaitGroup // stream handlers started by the listener host
+	var handlers atomic.Int32 // stream handlers of the listener host still running
 	defer func() {
 		// everything this case started has ended before it returns: both hosts closed (that unblocks
 		// whatever a watchdog left behind), all handler goroutines gone
 		B.Close()
 		A.Close()
-		if !run.Watchdog(30*time.Second, hwg.Wait) {
-			out.Watchdog = true
+		for dl := time.Now().Add(30 * time.Second); handlers.Load() != 0; time.Sleep(time.Millisecond) {
+			if time.Now().After(dl) {
+				out.Watchdog = true
+				break
+			}
 		}
 	}()
 
@@ -486,11 +489,11 @@ func (s *state) sysRun(c *sysCase, attempt int) (out sysOutcome) {
 	defer cancel()
 	deadline, _ := ctx.Deadline()
 	n := len(c.Streams)
-	out.Streams = make([]*sysStream, n)
-	var mu sync.Mutex // guards the handler-written halves of out.Streams
+	live := make([]*sysStream, n) // written by openers and handlers under mu; out.Streams gets a copy at the end
+	var mu sync.Mutex
 	done := make([]chan struct{}, n)
-	for k := range out.Streams {
-		out.Streams[k] = &sysStream{Spec: c.Streams[k], Trailer: "missing"}
+	for k := range live {
+		live[k] = &sysStream{Spec: c.Streams[k], Trailer: "missing"}
 		done[k] = make(chan struct{})
 	}
 	var ran sync.Map
@@ -500,8 +503,8 @@ func (s *state) sysRun(c *sysCase, attempt int) (out sysOutcome) {
 				st.Reset()
 				return
 			}
-			hwg.Add(1)
-			defer hwg.Done()
+			handlers.Add(1)
+			defer handlers.Add(-1)
 			defer close(done[k])
 			sp := c.Streams[k]
 			st.SetDeadline(deadline)
@@ -537,7 +540,7 @@ func (s *state) sysRun(c *sysCase, attempt int) (out sysOutcome) {
 				dw.CloseErr = err.Error()
 			}
 			mu.Lock()
-			o := out.Streams[k]
+			o := live[k]
 			o.HandlerRan, o.Up, o.DownW = true, up, dw
 			o.Timeout = o.Timeout || upTO || dw.Timeout
 			mu.Unlock()
@@ -581,7 +584,7 @@ func (s *state) sysRun(c *sysCase, attempt int) (out sysOutcome) {
 		wg.Add(1)
 		go func() {
 			defer wg.Done()
-			sp, o := c.Streams[k], out.Streams[k]
+			sp, o := c.Streams[k], live[k]
 			st, err := B.NewStream(ctx, A.ID(), sysProto(k, sp.Eager))
 			if err != nil {
 				mu.Lock()
@@ -646,7 +649,7 @@ func (s *state) sysRun(c *sysCase, attempt int) (out sysOutcome) {
 		wg.Wait()
 		for k := range done {
 			mu.Lock()
-			o := out.Streams[k]
+			o := live[k]
 			// the opener's side already ended in an error: its handler may never have been started (or is
 			// about to fail as well) - give it a moment, not the whole watchdog
 			openerFailed := o.OpenErr != "" || !o.UpW.ok(o.Spec.Up) || !o.Down.EOF
@@ -667,7 +670,7 @@ func (s *state) sysRun(c *sysCase, attempt int) (out sysOutcome) {
 	// hand out a copy taken under the lock (a handler of a stream whose opener gave up may still run)
 	mu.Lock()
 	cp := make([]*sysStream, n)
-	for k, o := range out.Streams {
+	for k, o := range live {
 		v := *o
 		if !finished || ctx.Err() != nil {
 			v.Timeout = true
